@@ -261,8 +261,8 @@ def make_user_toml_values(seed: int, i: int) -> dict:
         ('identification_threshold', 'Output'): 10 ** pr.uniform(-8, 2),
         ('optimization_algorithm', 'Estimation'): pr.choice(['automatic'] + list(opt.algorithms.keys())),
         ('bootstrap_samples', 'Estimation'): pr.randint(0, 500),
-        ('max_iterations', 'SimpleBounds'): pr.randint(1, 5000),
-        ('tolerance', 'SimpleBounds'): 10 ** pr.uniform(-12, -2),
+        ('max_iterations', 'SimpleBounds'): pr.randint(50, 5000),
+        ('tolerance', 'SimpleBounds'): 10 ** pr.uniform(-8, -3),
         ('steptol', 'SimpleBounds'): 10 ** pr.uniform(-9, -2),
         ('second_derivatives', 'SimpleBounds'): pr.choice([0, 1, 0.0, 1.0, pr.random()]),
         ('missing_data', 'Specification'): pr.choice([99999, -1, 0, 123456789, -99999.5]),
